@@ -432,6 +432,7 @@ def run_stream(ctx, scs, stream, with_variants):
                 if stream == "frags":
                     run.dist("graph_shape", sc.notes["shape"])
                     run.dist("fragments_per_scenario", str(sc.notes["n_frags"]))
+                    run.dist("skip_include_on_spreads_or_inline_fragments", str(min(sc.notes.get("conditions", 0), 6)))
                 n_mix = sum(1 for o in pkg["ops"].values() for c in o["classes"] if c["frags"])
                 run.dist("classes_with_fragment_bases", str(min(n_mix, 5)) + ("+" if n_mix >= 5 else ""))
                 run.dist("fragments_module", "written" if pkg["module"] else "absent")
@@ -448,7 +449,8 @@ def run_stream(ctx, scs, stream, with_variants):
 
 def run(ctx):
     run = ctx.run
-    run.rule = ("fragment-graph scenarios (chain, diamond, shared, iface, union, inline, unused, mixed; @mixin on fields "
+    run.rule = ("fragment-graph scenarios (chain, diamond, shared, iface, union, inline, unused, mixed, conditional = @skip/"
+                "@include on spreads and enclosing inline fragments; @mixin on fields "
                 "and fragment definitions) x permuted definition orders x PYTHONHASHSEED values, plus the shared main "
                 "stream; every generated class checked (skeleton, __bases__, __mro__), every operation x 3 response "
                 "plans for instance checks. non-trivial = call in which at least one fragment-instance check ran; "
@@ -460,7 +462,7 @@ def run(ctx):
     ]
     k2_and_k1a(ctx)
     base = ctx.seed * 100000
-    n_frag = 160 if ctx.thorough else 32
+    n_frag = 180 if ctx.thorough else 36
     n_main = 60 if ctx.thorough else 10
     scs = []
     for i in range(n_frag):
